@@ -291,6 +291,20 @@ class ResolveStream(runner.Stream):
 
     def witnesses(self):
         out = []
+        # value references called min / max / Max (legal names; the keywords are upper case): as INTEGER
+        # and SIZE bounds they resolve like any other reference
+        for lo, hi in (("min", "max"), ("mIN", "Max"), ("min", "maX")):
+            vals = f"{lo} INTEGER ::= 5\n{hi} INTEGER ::= 10"
+            a = (f"Main DEFINITIONS AUTOMATIC TAGS ::= BEGIN\n{vals}\nLevel ::= INTEGER ({lo}..{hi})\nOpen ::= INTEGER ({lo}..{hi}, ...)\n"
+                 f"Blob ::= OCTET STRING (SIZE({lo}..{hi}))\nLst ::= SEQUENCE (SIZE(1..{hi})) OF BOOLEAN\nHalf ::= INTEGER (0..{hi})\nEND")
+            b = (f"Main DEFINITIONS AUTOMATIC TAGS ::= BEGIN\n{vals}\nLevel ::= INTEGER (5..10)\nOpen ::= INTEGER (5..10, ...)\n"
+                 f"Blob ::= OCTET STRING (SIZE(5..10))\nLst ::= SEQUENCE (SIZE(1..10)) OF BOOLEAN\nHalf ::= INTEGER (0..10)\nEND")
+            out.append(f"resolve subst {hx(a)} {hx(b)} regress:ref_named_min_max:eq")
+            lib = f"Lib DEFINITIONS AUTOMATIC TAGS ::= BEGIN\n{vals}\nEND"
+            a2 = a.replace(vals, f"IMPORTS {lo}, {hi} FROM Lib;")
+            b2 = b.replace(vals, f"IMPORTS {lo}, {hi} FROM Lib;")
+            out.append(f"resolve subst {hx(a2)},{hx(lib)} {hx(b2)},{hx(lib)} regress:ref_named_min_max:eq")
+            out.append(f"resolve subst {hx(lib)},{hx(a2)} {hx(lib)},{hx(b2)} regress:ref_named_min_max:eq")
         # a value assignment that has the name of an enumeration item: `DEFAULT item` of a component
         # typed by (a reference to) the ENUMERATED is the item, an INTEGER component's `DEFAULT item` /
         # bound is the value — same module, imported by name, imported by object identifier
